@@ -488,8 +488,9 @@ class WalkerTable(object):
                     if not isinstance(name, str):
                         raise AnalysisError('walker table: entry without a literal name: %s'
                                             % short(rec.node))
-                    if name in store:
-                        continue      # first category wins (lookup order)
+                    if name in store and store[name]['category'] != cat:
+                        continue      # first category wins (lookup order) ...
+                    # ... but inside one category the per-category dict keeps the LAST entry
                     entry = {'rec': rec, 'category': cat, 'args': _argspec_of(rec),
                              'is_math_mode': bool(rec.kwargs.get('is_math_mode') or
                                                   rec.kwargs.get('environment_is_math_mode'))}
@@ -526,5 +527,5 @@ class L2TTable(object):
                              'has_discard': (kind != 'specials') and ('discard' in rec.kwargs
                                                                       or len(rec.args) > 2)}
                     self.all_entries.append(entry)
-                    if name not in store:
-                        store[name] = entry
+                    if name not in store or store[name]['category'] == cat:
+                        store[name] = entry     # first category wins, last entry inside a category
